@@ -74,6 +74,14 @@ Req == /\ e.ev = "req"
                                          /\ TLt(TSub(P(SC), rem, x), MsPair(SC, 1))      \* rem - x < 1 ms
                                          /\ TLt(TSub(P(SC), x, rem), MsPair(SC, 1)),     \* x - rem < 1 ms
                        <<"too_early_by_ms", e.early, "remaining_u", TooEarlyBy(SC, e.k, e.i, now)>>)
+             \* before availabilityStartTime: the figure is the time to AST or the time to the segment's availability
+             /\ Clause("C04.body_before_ast", (e.st = 425 /\ now.w < 0) =>
+                                      LET x    == [w |-> e.early[1], r |-> e.early[2] * H.TS]
+                                          toAv == TooEarlyBy(SC, e.k, e.i, now)
+                                          toA0 == TSub(P(SC), TZero, now)
+                                          near(a, b) == TLt(TSub(P(SC), a, b), MsPair(SC, 1)) /\ TLt(TSub(P(SC), b, a), MsPair(SC, 1))
+                                      IN e.early[1] >= 0 /\ (near(x, toAv) \/ near(x, toA0)),
+                       <<"too_early_by_ms", e.early, "to_ast_u", TSub(P(SC), TZero, now)>>)
              /\ phase' = (key :> (IF Phase(e.st) > old THEN Phase(e.st) ELSE old)) @@ phase
        /\ UNCHANGED <<h, prev, digs>>
 
